@@ -948,6 +948,7 @@ fn gen_for(g: &mut Gen, rng: &mut Rng, b: &Base, tier: Tier, small: bool, others
     if let Some(gk) = comp("gkr") {
         for tail in [
             "00", "01", "0100", "0102", "01030000", "0100ffffffffffffffff", "01000000000000010000", "0100ffffffff00000000", "0100ffffffffffffff7f",
+            "010301", "010303", "010305", "010307", "010309", "01030b", "01037f", "0105fe00", "01050201", "010503ff", "01030700", "0105070000",
             "01fe", "01fdff", "0180ffffffffffffff", "0140ffffffffffff", "0104aa", "02", "ff", "0110", "01f0ffffff", "0100000000000000ff00",
         ] {
             g.case("gkr", b, name, "c", &format!("r{}:{}:{}", gk.off, gk.len, tail), true);
